@@ -56,7 +56,8 @@ Ltac flow_pre Hst m :=
   acct_pre Hst;
   repeat (first [ rewrite gatesw_upd_q by lia | rewrite gatesw_upd_enq by lia ]);
   try (erewrite !qw_rem by eassumption);
-  cbn [mf mq mb me mQ mQ0 m_gen4]; unfold pre_f, pre_b, pre_q, post_f, lostw, evw, tagis, gen4_val; cbn [gnext w_gnext].
+  cbn [mf mq mb me mQ mQ0 m_gen4]; unfold pre_f, pre_b, pre_q, post_f, lostw, evw, tagis, gen4_val;
+  cbn [gates bag bprods pout exc canceled compl gnext done result log w_gates w_bag w_pout w_exc w_canceled w_compl w_gnext w_done w_result add_log upd_gate gate_enq].
 
 Lemma Q_local c t s th ch s1 th1 ch1 site wake j0 tag :
   (0 < nstages c)%nat -> wf_shared c s -> wf_thread c th ->
@@ -65,6 +66,89 @@ Proof.
   intros H0 [[WL WG] WB] WT H. unfold wf_thread in *. unfold dlt. step_cases H th; wf_fin; subst.
   all: try (pose proof (nth_error_gate_lt _ _ _ _ Hn)).
   all: flow_pre Hst (mQ j0 tag); rewrite ?strandw_Q.
-  all: try (timeout 60 acct_fin).
-  all: match goal with Hs : stack _ = ?st |- ?G => idtac "LEFT" st G end.
+  all: acct_fin.
+Qed.
+
+Lemma Q0_local c t s th ch s1 th1 ch1 site wake tag :
+  (0 < nstages c)%nat -> wf_shared c s -> wf_thread c th ->
+  mstep_thread c t s th ch = Some (s1, th1, ch1, site, wake) -> dlt (mQ0 tag) s th s1 th1 = 0.
+Proof.
+  intros H0 [[WL WG] WB] WT H. unfold wf_thread in *. unfold dlt. step_cases H th; wf_fin; subst.
+  all: try (pose proof (nth_error_gate_lt _ _ _ _ Hn)).
+  all: flow_pre Hst (mQ0 tag); rewrite ?strandw_Q0.
+  all: acct_fin.
+Qed.
+
+Ltac cmp_cases :=
+  repeat match goal with
+  | |- context [Z.leb ?a ?b] => destruct (Z.leb_spec a b)
+  | |- context [Z.ltb ?a ?b] => destruct (Z.ltb_spec a b)
+  end.
+
+Lemma gen4_local c t s th ch s1 th1 ch1 site wake tag :
+  (0 < nstages c)%nat -> wf_shared c s -> wf_thread c th ->
+  mstep_thread c t s th ch = Some (s1, th1, ch1, site, wake) -> dlt (m_gen4 tag) s th s1 th1 = gen4_val c s1 tag - gen4_val c s tag.
+Proof.
+  intros H0 [[WL WG] WB] WT H. unfold wf_thread in *. unfold dlt, gen4_val. step_cases H th; wf_fin; subst.
+  all: flow_pre Hst (m_gen4 tag).
+  all: rewrite ?(gatesw_zero (m_gen4 tag)) by reflexivity; rewrite ?(strandw_zero (m_gen4 tag)) by (intros; reflexivity).
+  all: cbn [mf mq mb me m_gen4].
+  all: repeat match goal with |- context [match ?x with _ => _ end] => is_var x; destruct x end.
+  all: repeat match goal with |- context [if ?b then _ else _] => destruct b eqn:? end.
+  all: eqb_cases; cmp_cases; wsimp; bool_hyps; lia.
+Qed.
+
+(* ---------- the state-level flow invariant ---------- *)
+Definition FlowInv (c : cfg) (s : state) : Prop :=
+  forall tag, total (mQ0 tag) s = 0 /\ total (m_gen4 tag) s = gen4_val c (sh s) tag /\ forall j0, total (mQ j0 tag) s = 0.
+
+Lemma total_init_all0 m c :
+  (forall f, mf m f = 0) -> total m (init c) = 0.
+Proof.
+  intros F. unfold total, init, shw, thsw; cbn [sh threads gates bag log].
+  assert (G : forall k l, gatesw m k (map init_gate l) = 0) by (intros k l; revert k; induction l as [|a l IH]; intros k; cbn; [reflexivity | rewrite IH; reflexivity]).
+  rewrite G. cbn. rewrite F. rewrite sumf_zero; [lia|]. intros x Hx. apply in_map_iff in Hx. destruct Hx as [w [<- _]]. cbn. rewrite F. lia.
+Qed.
+
+Lemma init_total_frames m c :
+  mf m (FMain MStart) = 0 -> mf m (FWorker false) = 0 -> total m (init c) = 0.
+Proof.
+  intros F1 F2. unfold total, init, shw, thsw; cbn [sh threads gates bag log].
+  assert (G : forall k l, gatesw m k (map init_gate l) = 0) by (intros k l; revert k; induction l as [|a l IH]; intros k; cbn; [reflexivity | rewrite IH; reflexivity]).
+  rewrite G. cbn. rewrite F1. rewrite sumf_zero; [lia|]. intros x Hx. apply in_map_iff in Hx. destruct Hx as [w [<- _]]. cbn. rewrite F2. lia.
+Qed.
+
+Lemma FlowInv_init c : FlowInv c (init c).
+Proof.
+  intros tag. split; [apply init_total_frames; reflexivity|]. split.
+  - rewrite init_total_frames by reflexivity. unfold gen4_val, init; cbn [sh gnext].
+    destruct (0 <=? tag) eqn:A; cbn; [|reflexivity]. destruct (tag <? 0) eqn:B; cbn; [|reflexivity].
+    apply Z.leb_le in A. apply Z.ltb_lt in B. lia.
+  - intros j0. apply init_total_frames; reflexivity.
+Qed.
+
+Lemma FlowInv_mstep c s t ch s' ch' site :
+  (0 < nstages c)%nat -> WF c s -> FlowInv c s -> mstep c s t ch = Some (s', ch', site) -> FlowInv c s'.
+Proof.
+  intros H0 [WS WT] I H tag. apply mstep_inv in H. destruct H as (th & s1 & th1 & wake & N & M & ->).
+  assert (Wth : wf_thread c th) by (eapply Forall_nth_error; eauto).
+  destruct (I tag) as (I1 & I2 & I3). cbn [sh].
+  pose proof (Q0_local c t (sh s) th ch s1 th1 ch' site wake tag H0 WS Wth M) as D0.
+  pose proof (gen4_local c t (sh s) th ch s1 th1 ch' site wake tag H0 WS Wth M) as D4.
+  pose proof (total_step (mQ0 tag) (threads s) t th (sh s) s1 th1 wake eq_refl N) as T0.
+  pose proof (total_step (m_gen4 tag) (threads s) t th (sh s) s1 th1 wake eq_refl N) as T4.
+  destruct s as [s0 ths]; cbn [sh threads] in *.
+  split; [lia|]. split; [lia|]. intros j0.
+  pose proof (Q_local c t s0 th ch s1 th1 ch' site wake j0 tag H0 WS Wth M) as D.
+  pose proof (total_step (mQ j0 tag) ths t th s0 s1 th1 wake eq_refl N) as T1.
+  specialize (I3 j0). lia.
+Qed.
+
+Theorem flow_invariant c s : (0 < nstages c)%nat -> reach (mstep c) (init c) s -> FlowInv c s.
+Proof.
+  intros H0 R.
+  assert (X : WF c s /\ FlowInv c s).
+  { apply (reach_inv (mstep c) (fun s => WF c s /\ FlowInv c s) (init c)); [split; [apply WF_init | apply FlowInv_init] | | exact R].
+    intros s1 t ch s1' ch' site [W I] E. split; [eapply WF_mstep; eauto | eapply FlowInv_mstep; eauto]. }
+  exact (proj2 X).
 Qed.
